@@ -88,7 +88,8 @@ def run(rep):
                     rep.finding_or_violation(key, '%s: %s' % (c['type'], why), rp)
             else:
                 rep.violation('%s: %s (the pinned model does not predict this)' % (c['type'], why), rp)
-        corp.coverage({'failing_operations_in_corpus': nfail, 'failing_operations_examined': len(sites), 'continuation_pairs_run': npairs})
+        n_nested = nested_faults(rep, corp.m, quick)
+        corp.coverage({'nested_failing_calls_examined': n_nested, 'failing_operations_in_corpus': nfail, 'failing_operations_examined': len(sites), 'continuation_pairs_run': npairs})
         rep.coverage['evaluations'] += 2 * npairs
     finally:
         corp.close()
@@ -99,9 +100,52 @@ def run(rep):
                         'attribute / value assignment failures are covered by C04 / C05']
 
 
+def nested_faults(rep, m, quick):
+    """failing calls on elements of nested documents (targets that are not children of the receiver: grandchildren, siblings,
+    unattached elements; inadmissible adds): the receiver, snapshotted recursively with its serialisation, must not change"""
+    from . import docgen, impl as I
+    g = m.g
+    rng = random.Random(rep.seed * 13 + 5)
+    G = docgen.Gen(g, rng)
+    names = [n for n in sorted(g['elements']) if (g['elements'][n][0][6:] if g['elements'][n][0].startswith('<anon>') else g['elements'][n][0]) in g['xsd_particles']]
+    small = ['pitch', 'step', 'footnote', 'voice', 'duration', 'staff', 'octave', 'level', 'dot', 'tie', 'beam', 'fermata', 'words']
+    cases = []
+    for name in names:
+        for _ in range(2 if quick else 12):
+            cases.append({'doc': G.element(name, 0, 3), 'extra': G.element(rng.choice(small), 0, 2)})
+    for name in ('note', 'measure', 'attributes', 'direction', 'harmony', 'notations', 'part-list', 'score-part', 'barline', 'print', 'defaults', 'identification', 'score-partwise'):
+        for _ in range(10 if quick else 100):
+            cases.append({'doc': G.element(name, 0, 4), 'extra': G.element(rng.choice(small), 0, 2)})
+    outs = I.run_sharded('c10_nested_runner.py', lambda i, sh: {'seed': rep.seed * 100 + i, 'cases': sh}, cases)
+    n = 0
+    kinds = {}
+    seen = set()
+    for sh, res in outs:
+        for r in res:
+            if 'skip' in r or r.get('raised') is None:
+                continue
+            n += 1
+            kinds[r['kind']] = kinds.get(r['kind'], 0) + 1
+            if not r['same'] and (r['kind'], r['receiver']) not in seen:
+                seen.add((r['kind'], r['receiver']))
+                rep.finding_or_violation('C10:nested:' + r['kind'], '%s.%s(%s) raises %s and leaves the receiver changed: %s' % (
+                    r['receiver'], r['kind'], r['target'], r['raised'], r.get('diff')),
+                    {'nested': True, 'kind': r['kind'], 'receiver': r['receiver'], 'target': r['target'], 'raised': r['raised'], 'diff': r.get('diff'),
+                     'doc': sh[r['case']]['doc'], 'extra': sh[r['case']]['extra']})
+    rep.coverage['nested_failing_calls_by_kind'] = kinds
+    return n
+
+
 def replay(path):
     r = json.load(open(path))
     from . import impl as I
+    if r.get('nested'):
+        bad = []
+        for seed in range(6):
+            outs = I.run_sharded('c10_nested_runner.py', lambda i, sh: {'seed': seed, 'cases': sh}, [{'doc': r['doc'], 'extra': r['extra']}])
+            bad += [x for x in outs[0][1] if x.get('raised') and not x.get('same')]
+        print(json.dumps({'replay': {k: r[k] for k in ('kind', 'receiver', 'target', 'raised', 'diff')}, 'observed_now': bad[:5]}, indent=1)[:3000])
+        return 1 if bad else 0
     out = I.run_cases([{'type': r['type'], 'ops': r['ops']}], workers=1)[0]
     print(json.dumps({'replay': r, 'observed_now': out[-2:]}, indent=1, default=str)[:3000])
     return 0
